@@ -20,3 +20,11 @@ REAL = {
 for _lo in range(2, 5):
     for _hi in range(_lo, 6):
         REAL[f"CL[{_lo}..{_hi}]"] = _cl
+
+
+def _feature(location, type="CDS"):  # pylint: disable=redefined-builtin
+    from antismash.common.secmet.features.feature import Feature
+    return Feature(location, feature_type=type)
+
+
+REAL["FeatureWithLocation"] = _feature
